@@ -297,9 +297,11 @@ package db
 //@   tags C19
 //@ func (*DB).getActiveCollectionDown -> (a, root, found)
 //@   ensures found ==> a.IsActive
+//@   modifies failed
 //@   tags C19
 //@ func (*DB).getActiveCollectionUp -> (a, found)
 //@   ensures found ==> a.IsActive
+//@   modifies failed
 //@   tags C19
 //@ // ===== C20/C19: the notification names the collection (root) the subscribers and replicators are keyed by
 //@ extern (*db.collection).Version(c) -> (v)
